@@ -20,8 +20,15 @@ class RemovableDisposable(abc.DisposableBase):
 
     def dispose(self) -> None:
         self.observer.dispose()
-        if not self.subject.is_disposed and self.observer in self.subject.observers:
-            self.subject.observers.remove(self.observer)
+        # Same lock as the subject's own list updates: a terminating subject
+        # clearing the list between the membership test and remove() made
+        # list.remove raise ValueError into the unsubscribing thread.
+        with self.subject.lock:
+            if (
+                not self.subject.is_disposed
+                and self.observer in self.subject.observers
+            ):
+                self.subject.observers.remove(self.observer)
 
 
 class QueueItem(NamedTuple):
